@@ -64,6 +64,11 @@ CHECKS = {
          "(a) every registered parameter (14, ruleguard's are C18's) x {default, witness value} x {integrator override before NewChecker, -@c.p on go-critic and gocritic, analyzer flag on both analysis binaries} on a witness package whose diagnostics differ between the two values: each route must reproduce the integrator route's diagnostics; (b) for hugeParam (parameter and receiver), rangeValCopy, rangeExprCopy, tooManyResults, nestingReduce, ifElseChain, commentedOutCode: generated programs measuring exactly N for N in 0..40 (+ spot values up to 4096 for byte sizes) x threshold T over the same window (-1..40 + spots): reported iff documented predicate (N>=T, N>T for 'maximum'), monotone in both directions; where the usage text does not fix the unit (ifElseChain, commentedOutCode) the flip point must exist and move by exactly one per unit; (c) 44 types incl. padding, zero-size trailing fields, nested arrays/structs: hugeParam's '(N bytes)' vs unsafe.Sizeof printed by a compiled program.",
          "The witness table is checked for completeness against the registry (a new parameter makes the check exit 2 until a witness is added).",
          "DESIGN.md section 3, C14"),
+ "C15": ("exploration",
+         "exhaustive enumeration of target versions x corpus x checkers; every recommended std API / literal syntax dated from GOROOT/api; full enumeration of version strings for the parser and of version pairs for the comparator",
+         "Every version 1.0..1.25 in both spellings plus unset, 1.99, 2.0 x every example package and odd/build-constraint file x all checkers (one long-lived set per version). For versions >= 1.13 every std function, method or 0o literal named in a diagnostic's message or fix and not quoted from the analysed file is dated with GOROOT/api/go1.*.txt and must not be newer than the configured version. Equivalences: unset == 1.25 == 1.99; '1.N' == 'go1.N' for every N. Parser: every string over {go,1,2,0,9,10,.,x,-,blank} up to 4 symbols against the numeric reading; comparator: all pairs over 11 versions against (major,minor) lexicographic order. Plumbing: 11 versions through -go on go-critic, gocritic and go-critic-analysis compared with SetGoVersion in-process on a witness that changes at 1.13/1.15/1.17/1.18.",
+         "Method names are dated by their earliest appearance on any standard type (lower bound, cannot alarm falsely); a token that occurs anywhere in the analysed file counts as quoted.",
+         "DESIGN.md section 3, C15"),
 }
 
 PENDING = {
